@@ -301,7 +301,11 @@ func (keys_and_cert *KeysAndCert) SigningPublicKey() (types.SigningPublicKey, er
 }
 
 // Certificate returns the certificate.
+// Returns nil if the KeysAndCert or its KeyCertificate is nil (zero value or failed parse).
 func (keys_and_cert *KeysAndCert) Certificate() *certificate.Certificate {
+	if keys_and_cert == nil || keys_and_cert.KeyCertificate == nil {
+		return nil
+	}
 	return &keys_and_cert.KeyCertificate.Certificate
 }
 
